@@ -367,6 +367,28 @@ def run_check(pid: str, tier: str, verif_seed: int, *, runs: Optional[int] = Non
                     break
                 submit_more()
         results.sort(key=lambda r: r["idx"])
+        fin = getattr(prop, "finalize", None)
+        if fin and results:
+            # cross-run obligations (e.g. C07: shards must compose into one chain)
+            for extra_case in fin(results, tier) or []:
+                extra_case["run_seed"] = run_seed(verif_seed, pid, n_runs)
+                res = execute_case(pid, extra_case)
+                results.append(
+                    {
+                        "idx": n_runs + sum(1 for r in results if r["idx"] >= n_runs),
+                        "seed": extra_case["run_seed"],
+                        "digest": res["digest"],
+                        "violation": res.get("violation"),
+                        "violations": _all_violations(res),
+                        "probes": res.get("probes", {}),
+                        "stats": res.get("stats", {}),
+                        "states": res.get("states", []),
+                        "nontrivial": res.get("nontrivial", []),
+                        "wall": res["wall"],
+                        "harness_error": res.get("harness_error"),
+                        "case": extra_case,
+                    }
+                )
         if os.environ.get("ZSIM_DUMP_DIGESTS"):
             with open(os.environ["ZSIM_DUMP_DIGESTS"], "w") as f:
                 for r in results:
